@@ -791,6 +791,38 @@ def arccos(x):
     return S(av, qdiv(qneg(x.d), si.v))
 
 
+def arcsin(x):
+    """arcsin of a term that is (solver-checked) the sine of a registered angle a: a for a in [-pi/2, pi/2], pi - a for a in (pi/2, 3 pi/2],
+    -pi - a for a in [-3 pi/2, -pi/2); the range is decided by forking the path"""
+    x = S.lift(x)
+    if q_is_const(x.v) and tzero(x.d.n):
+        return S(Q(const(math.asin(float(x.v.n)))))
+    CTX.axioms.extend(a for a in pi_axioms() if not any(a.eq(b) for b in CTX.axioms))
+    half_pi = qmul(Q(Fraction(1, 2)), Q(PI))
+    for (av, w) in list(CTX.wangles):
+        A = S(av)
+        si, co, W = A._sincos()
+        l, r = qeq_terms(x.v, si.v)
+        if not hint_valid([term(l) != term(r)]):
+            continue
+        lo = term(qsign_term(qadd(av, half_pi)))            # sign of a + pi/2
+        hi = term(qsign_term(qadd(av, half_pi, -1)))        # sign of a - pi/2
+        if bool(B(z3.And(lo >= 0, hi <= 0), note="arcsin: angle in [-pi/2, pi/2]")):
+            val, cosb = av, co
+        elif bool(B(hi > 0, note="arcsin: angle above pi/2")):
+            if not bool(B(term(qsign_term(qadd(av, qmul(Q(Fraction(3, 2)), Q(PI)), -1))) <= 0, note="arcsin: angle <= 3 pi/2")):
+                raise NotImplementedError("arcsin: registered angle outside [-3 pi/2, 3 pi/2]")
+            val, cosb = qadd(Q(PI), av, -1), -co
+        else:
+            if not bool(B(term(qsign_term(qadd(av, qmul(Q(Fraction(3, 2)), Q(PI))))) >= 0, note="arcsin: angle >= -3 pi/2")):
+                raise NotImplementedError("arcsin: registered angle outside [-3 pi/2, 3 pi/2]")
+            val, cosb = qadd(qneg(Q(PI)), av, -1), -co
+        if tzero(x.d.n):
+            return S(val)
+        return S(val, qdiv(x.d, S.lift(cosb).v))
+    raise NotImplementedError("arcsin of a term that is not the sine of a registered angle")
+
+
 def arctan(x):
     x = S.lift(x)
     if q_is_const(x.v) and tzero(x.d.n):
